@@ -685,6 +685,9 @@ class Evaluator:
             return list(it)
         if isinstance(it, Obj) and (it.kind, "__iter__") in self.method_models:
             return list(self.method_models[(it.kind, "__iter__")](self, it, [], {}, node))
+        # Python itself refuses to iterate over these: an exception of the analysed program, not a gap of the model
+        if it is None or isinstance(it, (bool, int, float, FuncV, Builtin)) or (isinstance(it, Obj) and it.kind == "func") or (isinstance(it, ExtRef) and it.path.startswith("operator.")):
+            raise Raised("TypeError", node, f"{'NoneType' if it is None else type(it).__name__} object is not iterable")
         raise Unmodelled(f"iteration over {it!r}", node)
 
     # ------------------------------------------------------------------ expressions
@@ -1086,6 +1089,20 @@ class Evaluator:
             if isinstance(op, ast.Add) and (isinstance(l, (set, frozenset, dict)) or isinstance(r, (set, frozenset, dict)) or l is None or r is None):
                 raise Raised("TypeError", node, f"unsupported operand type(s) for +")
             if isinstance(op, (ast.Sub, ast.Mult, ast.Div)) and (l is None or r is None or isinstance(l, dict) or isinstance(r, dict)):
+                raise Raised("TypeError", node, f"unsupported operand type(s) for {type(op).__name__}")
+        seq = (list, tuple)
+        views = (type({}.keys()), type({}.items()), type({}.values()))
+        pyval = plain + (int, float, bool) + views
+        if (isinstance(l, seq) and isinstance(r, pyval)) or (isinstance(r, seq) and isinstance(l, pyval)):
+            # sequences know `+` with their own kind and `*` with an integer, nothing else
+            if isinstance(op, (ast.Sub, ast.Div, ast.FloorDiv, ast.Pow, ast.MatMult, ast.Mod, ast.BitAnd, ast.BitOr, ast.BitXor, ast.LShift, ast.RShift)) and not (isinstance(op, ast.Mod) and isinstance(l, str)):
+                raise Raised("TypeError", node, f"unsupported operand type(s) for {type(op).__name__}")
+            if isinstance(op, ast.Add) and not ((isinstance(l, list) and isinstance(r, list)) or (isinstance(l, tuple) and isinstance(r, tuple))):
+                raise Raised("TypeError", node, "can only concatenate a sequence to a sequence of its own kind")
+            if isinstance(op, ast.Mult):
+                raise Raised("TypeError", node, "can't multiply sequence by non-int")
+        if (isinstance(l, views) and isinstance(r, pyval)) or (isinstance(r, views) and isinstance(l, pyval)):
+            if isinstance(op, (ast.Add, ast.Mult, ast.Div, ast.FloorDiv, ast.Pow, ast.Mod)):
                 raise Raised("TypeError", node, f"unsupported operand type(s) for {type(op).__name__}")
         # both operands are known but the operation is not modelled: no verdict rather than a guess
         raise Unmodelled(f"operator {type(op).__name__} on {type(l).__name__} and {type(r).__name__}", node)
